@@ -329,6 +329,7 @@ class Spline1D():
         TODO
         """
         if (hasattr(x, '__len__')):
+            x = np.asarray(x, dtype=float)
             result = np.empty_like(x)
             if self._basis.cubic_uniform:
                 cu_eval_spline_1d_vector(x, self._basis.knots,
